@@ -96,13 +96,13 @@ func checkDecode(c strCase) (h.Info, error) {
 // obtaining an error and inspecting it again.
 var afterwards = []string{
 	"a12uel5q", // checksum, short
-	"an83characterlonghumanreadablepartthatcontainsthenumber1andtheexcludedcharactersbio1tt5tgq", // checksum, long
+	"an83characterlonghumanreadablepartthatcontainsthenumber1andtheexcludedcharactersbio1tt5tgq",  // checksum, long
 	"an84characterslonghumanreadablepartthatcontainsthenumber1andtheexcludedcharactersbio1569pvx", // too long
-	"pzry9x0s0muk", // no separator
+	"pzry9x0s0muk",  // no separator
 	"1pzry9x0s0muk", // empty hrp
-	"x1b4n0q5v", // invalid data character
+	"x1b4n0q5v",     // invalid data character
 	"abcdefghijklmnopqrstuvwxyzabcdefghijklmnopqrstuvwxyz1b4n0q5vqqqqqq", // invalid data character, far
-	"li1dgmt3", // too short checksum
+	"li1dgmt3",                                                                                 // too short checksum
 	"A1g7sgd8", "a1G7SGD8", "abcdefghijklmnopqrstuvwxyzabcdefghijklmnopqrstuvwxyZ1qqqqqqqqqqq", // mixed case
 	"\x7f1axkwrx", "abcdefghijklmnopqrstuvwxyzabcdefghijklmnopqrstuvwxy\x801axkwrx", // hrp character
 }
@@ -134,6 +134,9 @@ func genDecode(t *rapid.T) strCase {
 			s = bgen.Upper(s)
 		}
 		s = bgen.FlipCase(t, s)
+	}
+	if h.Pick(t, "trappart", 14, 1) == 1 { // a case-folding trap placed in a chosen part of an otherwise valid string
+		return strCase{S: h.S(bgen.FoldTrapPart(t, s))}
 	}
 	ne := h.Pick(t, "nedits", 5, 5, 2, 1)
 	for i := 0; i < ne; i++ {
